@@ -73,7 +73,9 @@ pub fn image_of(node: &Node, db: &str) -> Option<DbImage> {
     let d = dbs.get(db)?;
     let mut keys = BTreeMap::new();
     for (k, v) in d.map.read().unwrap().iter() {
-        if v.state != nundb::bo::ValueStatus::Deleted {
+        // live as a client sees it: `get` answers its value. (Not the internal state flag alone: a key whose flag says
+        // Deleted but which holds a real value is a live key that the next snapshot would wrongly tombstone.)
+        if !(v.state == nundb::bo::ValueStatus::Deleted && v.value == "<Empty>") {
             keys.insert(k.clone(), (v.value.clone(), v.version));
         }
     }
